@@ -17,6 +17,9 @@ are lists with a head atom:
   (args n…) (list n…) | (nillist)  argument payloads; (fail s k) failing stage and error number or (fail);
   (errin k) | (errin)   error passed to join; (ok b) (err k) toerror
   (kind <opname>)       for `build`: which wrapper the package contains
+  (site 1|2)            which of two call sites of the same derive function (same types, other parameter
+                        names; the instrumented functions of site 2 have other tags)
+  (variadic i)          function i of the call has a variadic last parameter: such calls are refused
 
 Helpers that return a function value (all C15 wrappers, compose, toerror, fmap's error form with two or
 more results, and the split form of bind `(split 1)`: `fn, e := deriveFmap(f, g); deriveJoin(fn, e)`)
@@ -205,9 +208,15 @@ def parseFail (args : List SExp) : Option (Option Err) := do
   | [s, k] => some (some (s, k))
   | _ => none
 
-/-- the instrumented stage `i` with result types `rs` -/
-def stage (s : DState) (fail : Option Err) (i : Nat) (rs : List Nat) : ErrChain.Stage Nat Err :=
-  { run := fun a => (results s i rs a, match fail with
+/-- `(site 2)`: the second call site -/
+def site2 (args : List SExp) : Bool :=
+  match parseNats args "site" with
+  | some [2] => true
+  | _ => false
+
+/-- the instrumented stage `i` with result types `rs` (`off`: tag offset of the call site) -/
+def stage (s : DState) (fail : Option Err) (i : Nat) (rs : List Nat) (off : Nat := 0) : ErrChain.Stage Nat Err :=
+  { run := fun a => (results s (i + off) rs a, match fail with
       | some (st, k) => if st == i then some (st, k) else none
       | none => none) }
 
@@ -272,6 +281,8 @@ def chainWf (s : DState) (fl : Flags) (kind : String) (args : List SExp) : Optio
   | _ => none
 
 def fTag : Nat := 5
+/-- tag of the function under test at the call site of the op line -/
+def fTagOf (args : List SExp) : Nat := if site2 args then 6 else fTag
 
 def runPlumb (s : DState) (fl : Flags) (name : String) (args : List SExp) : Option String := do
   let cfg := fl.plumb
@@ -287,14 +298,14 @@ def runPlumb (s : DState) (fl : Flags) (name : String) (args : List SExp) : Opti
     let inner ← parseParams args "inner"
     let rs ← parseTyIds args "rs"
     if vs.length != outer.length + inner.length || outer.length != 1 then none else
-    let f := results s fTag rs
+    let f := results s (fTagOf args) rs
     some (answer ok (twice (showOut (Plumb.runUncurry cfg outer inner f vs))) (twice (showOut (Spec.uncurrySpec f vs))))
   | _ =>
     let ps ← parseParams args "ps"
     let rs ← parseTyIds args "rs"
     -- apply also exists for one parameter: `deriveApply(f, v)()`
     if vs.length != ps.length || ps.length < (if name == "apply" then 1 else 2) then none else
-    let f := results s fTag rs
+    let f := results s (fTagOf args) rs
     match name, vs with
     | "curry", a :: rest =>
       some (answer ok (twice (showOut (Plumb.runCurry cfg ps f a rest))) (twice (showOut (Spec.currySpec f a rest))))
@@ -327,7 +338,7 @@ def runChain (s : DState) (fl : Flags) (name : String) (args : List SExp) : Opti
     let fail ← parseFail args
     let vs ← parseNats args "args"
     if vs.length != ins.length then none else
-    let stages := outs.zipIdx.map fun (rs, i) => stage s fail i rs
+    let stages := outs.zipIdx.map fun (rs, i) => stage s fail i rs (if site2 args then 10 else 0)
     let zeros := zerosFor (outs.getLast?.getD [])
     -- building the composed function calls nothing; every invocation runs the chain
     some (answer ok (twice (showResult (ErrChain.compose zeros stages vs))) (twice (showResult (Spec.composeSpec zeros stages vs))))
@@ -425,7 +436,7 @@ def runChain (s : DState) (fl : Flags) (name : String) (args : List SExp) : Opti
         | _ => none
       | _ => none
     if vs.length != ps.length then none else
-    let f : List Nat → List Nat × Bool := fun a => (results s 0 rs a, okFlag)
+    let f : List Nat → List Nat × Bool := fun a => (results s (if site2 args then 6 else 0) rs a, okFlag)
     let m := twice (showResult (ErrChain.toError e f vs))
     let sp := twice (showResult (Spec.toErrorSpec e f vs))
     match custom with
@@ -442,7 +453,10 @@ def run (s : DState) (name : String) (args : List SExp) : Option String :=
     let args := args.drop 1
     let r : Option String := do
       let fl ← parseFlags args
-      if name == "build" then
+      if name == "build" && (findList args "variadic").isSome then
+        -- a variadic signature is refused by every plugin of the family
+        some "model=g1.c0 spec=g1.c0"
+      else if name == "build" then
         match ← findList args "kind" with
         | [.atom kind] =>
           if plumbOps.contains kind then
